@@ -567,7 +567,7 @@ func c03Cases(tier string) int {
 	if tier == "thorough" {
 		return 2 + 400 + 6000
 	}
-	return 2 + 40 + 300
+	return 2 + 40 + 600
 }
 
 func c03Run(c *Case) {
